@@ -472,6 +472,12 @@ func (e *Exec) ensureInit(pkg *ssa.Package) (res *initResult) {
 			}
 		}
 	}
+	// objects allocated by the package initialiser exist before the verified call: they are not "fresh" results
+	for id := range fs.Heap {
+		if m := e.metaAll[id]; m != nil {
+			m.Fresh = false
+		}
+	}
 	res = &initResult{heap: fs.Heap, maps: fs.Maps, ids: ids, mutated: mutated}
 	e.inits[pkg] = res
 	return res
